@@ -45,7 +45,7 @@ def main():
         try:
             subprocess.check_call(["git", "-C", wt, "apply", os.path.join(ROOT, "seeded", name, "patch.diff")])
             row = {}
-            for pid in RELATED[name[:3]]:
+            for pid in (RELATED.get(name[:3]) or RELATED[meta["property"][:3]]):
                 env = dict(os.environ, VERIF_REPO=wt)
                 p = subprocess.run([os.path.join(ROOT, "check"), pid, "--tier", "quick"], env=env, cwd=ROOT, stdout=subprocess.PIPE,
                                    stderr=subprocess.STDOUT, text=True)
